@@ -54,6 +54,35 @@ func (c *compiledRe) build(re *syntax.Regexp) {
 		c.literals = lits
 		return
 	}
+	// a top-level alternation whose alternatives carry their own anchors
+	// (`^a|b$`): the union of the alternatives' languages, each padded where
+	// it is not anchored
+	if re.Op == syntax.OpAlternate {
+		var alts []string
+		for _, alt := range re.Sub {
+			sub := &compiledRe{}
+			sub.build(alt)
+			if sub.err != "" {
+				c.err = sub.err
+				return
+			}
+			if sub.literals != nil {
+				var ls []string
+				for _, l := range sub.literals {
+					ls = append(ls, "(str.to_re "+smtStr(l)+")")
+				}
+				body := ls[0]
+				if len(ls) > 1 {
+					body = "(re.union " + strings.Join(ls, " ") + ")"
+				}
+				alts = append(alts, "(re.++ re.all "+body+" re.all)")
+				continue
+			}
+			alts = append(alts, sub.smt)
+		}
+		c.smt = "(re.union " + strings.Join(alts, " ") + ")"
+		return
+	}
 	var subs []*syntax.Regexp
 	if re.Op == syntax.OpConcat {
 		subs = re.Sub
